@@ -106,6 +106,7 @@ UNIT = dict(
                  dict(rule="R8", kind="re", dotall=True, pat=r"for f in seen_files\.into_iter\(\) \{\s*flush_check\(f\);\s*\}", repl="g.flush_check_all(seen_files);", why="HashSet iteration calling flush_check -> one ghost call (flush_check: unit core_trackers)"),
                  dict(rule="R5", kind="re", dotall=True, pat=r"unsafe \{\s*self\.allocator\.fast_forward\(([^;]*)\);\s*\}", repl=r"allocator.fast_forward(\1);", why="allocator call (unsafe fn; field passed explicitly)"),
              ],
+             requires=[("", "next_block_id < 0x2000_0000_0000_0000")],  # A-ARITH: block ids stay far below 2^61 (the scan hands back at most its start id plus the number of units scanned)
              ensures=[
                  ("C09,C06,C13:after_recovery_the_allocator_continues_at_or_above_the_id_the_scan_handed_back", "final(allocator).ff@.len() == old(allocator).ff@.len() + 1 && final(allocator).ff@.last() >= next_block_id as u64"),
                  ("C11:recovery_ends_successfully_once_the_files_are_scanned", "ret is Ok"),
